@@ -16,8 +16,8 @@ def run(out, tier, seed):
     sigs = {t[1]: t[2] for t in r.tagged("SIGNATURE")}
     cases = []
     for t in r.tagged("HIST"):
-        meth = rng.choice(["meth", "meth", "other", "deco", "deco2", "store", "tree"])
-        path = rng.choice(["direct", "direct", "dotted", "selfcap", "selfalias", "selffocus", "nested", "nested_ctx"])
+        meth = rng.choice(["meth", "meth", "other", "deco", "deco2", "store", "tree", "__call__"])
+        path = rng.choice(["direct", "direct", "dotted", "selfcap", "selfalias", "selffocus", "nested", "nested_ctx", "callonly"])
         cases.append({"id": len(cases), "src": "tlc-exhaustive", "target": t[1], "calls": list(t[2]), "method": meth, "path": path,
                       "via": [rng.random() < 0.8 for _ in t[2]]})
     for s, w in sigs.items():
@@ -26,8 +26,8 @@ def run(out, tier, seed):
     for _ in range(200 if tier == "quick" else 3000):
         calls = [rng.choice(objs) for _ in range(rng.randint(1, 5))]
         cases.append({"id": len(cases), "src": "random", "target": rng.choice(objs + ["K", "Sub", "E", "U"]), "calls": calls,
-                      "method": rng.choice(["meth", "other", "deco", "deco2", "store", "tree", "tree"]),
-                      "path": rng.choice(["direct", "dotted", "selfcap", "selfalias", "selffocus", "nested", "nested_ctx"]),
+                      "method": rng.choice(["meth", "other", "deco", "deco2", "store", "tree", "tree", "__call__"]),
+                      "path": rng.choice(["direct", "dotted", "selfcap", "selfalias", "selffocus", "nested", "nested_ctx", "callonly"]),
                       "via": [rng.random() < 0.8 for _ in calls]})
     for cls in ["K", "Sub", "E", "U"]:
         cases.append({"id": len(cases), "src": "property", "target": cls, "calls": objs, "method": "prop", "path": "direct"})
